@@ -294,6 +294,7 @@ for typ in array:
 
 
 @logaddexp.register(array, array)
+@sample.register(array, array)
 def _safe_logaddexp_tensor_tensor(x, y):
     finfo = np.finfo(x.dtype)
     shift = np.clip(max(detach(x), detach(y)), finfo.min, None)
@@ -301,6 +302,7 @@ def _safe_logaddexp_tensor_tensor(x, y):
 
 
 @logaddexp.register(numbers.Number, array)
+@sample.register(numbers.Number, array)
 def _safe_logaddexp_number_tensor(x, y):
     finfo = np.finfo(y.dtype)
     shift = np.clip(detach(y), max(x, finfo.min), None)
@@ -308,6 +310,7 @@ def _safe_logaddexp_number_tensor(x, y):
 
 
 @logaddexp.register(array, numbers.Number)
+@sample.register(array, numbers.Number)
 def _safe_logaddexp_tensor_number(x, y):
     return _safe_logaddexp_number_tensor(y, x)
 
